@@ -1282,7 +1282,7 @@ def m_unwrap_like(I, st, fr, t, args, name):
         return CONSUMED_PATH(I, st)
     if isinstance(v, Sym):
         st.notes.append(f"unwrap({v.n})")
-        return Sym(f"{v.n}.unwrap", t['dest_ty'])
+        return Sym(f"{v.n}.unwrap", t['dest_ty'], ('field', v.x, '0'))
     return Unknown('unwrap')
 
 
@@ -1318,7 +1318,7 @@ def m_unwrap_or(I, st, fr, t, args, name):
                 if cur is not None and cur != vn:
                     continue
                 if vn in ('Some', 'Ok'):
-                    val = Sym(f"{v.n}.0", ftys[0] if ftys else None)
+                    val = Sym(f"{v.n}.0", ftys[0] if ftys else None, ('field', v.x, '0'))
                 else:
                     val = args[1]
                 def post(s2, vn=vn, v=v):
@@ -1451,7 +1451,7 @@ def m_try_branch(I, st, fr, t, args, name):
             for (vn, fl, ftys) in vs:
                 if cur is not None and cur != vn:
                     continue
-                payload = Sym(f"{v.n}.0", ftys[0] if ftys else None) if fl else None
+                payload = Sym(f"{v.n}.0", ftys[0] if ftys else None, ('field', v.x, '0')) if fl else None
                 alts.append(((atom, vn) if cur is None else None, conv(vn, payload), None))
             return ('alts', alts)
     return Unknown('Try::branch')
@@ -1572,6 +1572,7 @@ DEFAULT_MODELS = {
     r'^std::option::Option::<T>::(as_ref|as_mut|as_deref|as_deref_mut)$|^std::result::Result::<T, E>::(as_ref|as_mut|as_deref|as_deref_mut)$': m_opt_as_ref,
     r'^std::option::Option::<T>::(copied|cloned)$|^std::option::Option::<&(mut )?T>::(copied|cloned)$|^std::result::Result::<&(mut )?T, E>::(copied|cloned)$': m_opt_copied,
     r'as std::clone::Clone>::clone$': m_clone,
+    r'^std::path::Path::to_path_buf$': m_clone,        # an owned copy of the same path value
     r'as std::convert::(From|Into)<.*>>::(from|into)$': m_passthrough,
     r'^std::option::Option::<T>::is_some$|^std::result::Result::<T, E>::is_ok$': None,  # filled below
     r'as std::ops::Try>::branch$': m_try_branch,
